@@ -165,3 +165,160 @@ Example C01_single_uop_loop_nonvacuous :
   (forall x, In x (b_ip s) -> 1 # 200 < x) /\
   exists s', bloop QNum 100 ex_kernel 0 s = Ok s' /\ b_pp s' = [1 # 4; 3 # 4; 0].
 Proof. exact bloop_single_nonvacuous. Qed.
+
+(* ======================================================================================================================
+   (10)-(15) ONE optimisation pass on instructions with SEVERAL micro-ops, exact rationals, unbounded
+   (Proofs/BalanceMulti.v, BalancePass.v, BalanceRefute.v).  The model is the balancer with the repaired rule 1
+   (the `== 0.0` branch keeps `differences` aligned with `indices`); no hypothesis on the exact-zero counter. *)
+From OV Require Import Proofs.BalanceMulti Proofs.BalancePass Proofs.BalanceRefute.
+
+(* (10) all micro-ops of ONE instruction, ANY kernel context k, ANY position idx: if the micro-op list meets the boolean
+        condition instr_okb (cycles >= 0, at least one port, resolved ports pairwise different, every micro-op with two or
+        more ports has uniform share cycles/|ports| > m/200 where m = number of micro-ops of the instruction), the row is
+        the model's average_port_pressure, and the per-instruction loop returns Ok, then the balanced row is a feasible
+        split with slack 1/100 per (micro-op, port), has the length of the port list, and every cell is >= 0. *)
+Theorem C01_multi_uop_instruction_feasible : forall ports k idx us pp ex pp' e,
+  instr_okb ports us = true ->
+  avg_pressure_list QNum ports us = Ok pp ->
+  balance_uops QNum ports k idx pp us ex = Ok (pp', e) ->
+  Feasible (List.length ports) (1 # 100) (map (toU ports) us) (qnth pp') /\
+  List.length pp' = List.length ports /\ (forall p, 0 <= nth p pp' 0).
+Proof. exact balance_instr_feasible. Qed.
+Print Assumptions C01_multi_uop_instruction_feasible.
+
+(* (11) ... hence: every cell >= 0; nothing on a port that no micro-op may use; the total is EXACTLY the micro-ops'
+        cycles; Hall's condition for EVERY port set S up to 1/100 per (micro-op not confined to S, port of S). *)
+Theorem C01_multi_uop_instruction_consequences : forall ports k idx us pp ex pp' e,
+  instr_okb ports us = true ->
+  avg_pressure_list QNum ports us = Ok pp ->
+  balance_uops QNum ports k idx pp us ex = Ok (pp', e) ->
+  (forall p, 0 <= qnth pp' p) /\
+  (forall p, (p < List.length ports)%nat ->
+     (forall u, (u < List.length us)%nat -> ~ In p (up (uget (map (toU ports) us) u))) -> qnth pp' p == 0) /\
+  sumn (List.length ports) (qnth pp') == sumn (List.length us) (fun u => uc (uget (map (toU ports) us) u)) /\
+  (forall S, confined_cycles S (map (toU ports) us) - (1 # 100) * card (List.length ports) S * nonconfined S (map (toU ports) us)
+             <= load (List.length ports) S (qnth pp')).
+Proof. exact balance_instr_consequences. Qed.
+Print Assumptions C01_multi_uop_instruction_consequences.
+
+(* (12) one whole pass (balance = assign_optimal_throughput(kernel), start 0) over a kernel of ANY length in which no
+        instruction has alternative port assignments and every instruction is as the semantic stage builds it
+        (start_ok: plain micro-op list meeting instr_okb, row = average_port_pressure of it): if the pass returns Ok
+        (whatever the exact-zero counter e), the kernel keeps its length, every instruction keeps its throughput and its
+        micro-ops, and every instruction's row is a feasible split of ITS OWN micro-ops with slack 1/100 per
+        (micro-op, port), of full length, every cell >= 0 (done_ok). *)
+Theorem C01_one_pass_feasible : forall ports (k k' : list (instr (T:=Q))) e,
+  all_start_ok ports k ->
+  balance QNum ports k = Ok (k', e) ->
+  List.length k' = List.length k /\
+  forall j, (j < List.length k)%nat ->
+    i_tp (nth j k' dins) = i_tp (nth j k dins) /\ i_uops (nth j k' dins) = i_uops (nth j k dins) /\
+    done_ok ports (nth j k' dins).
+Proof. exact balance_pass_feasible. Qed.
+Print Assumptions C01_one_pass_feasible.
+
+(* (12') the hypothesis of (12) is decidable: all_start_ok follows from the boolean start_okb on every instruction
+        (plain micro-op list, instr_okb, row == the model's average_port_pressure of the list, cell by cell) *)
+Theorem C01_one_pass_hypothesis_decidable : forall ports (k : list (instr (T:=Q))),
+  forallb (start_okb ports) k = true -> all_start_ok ports k.
+Proof. exact all_start_okb_ok. Qed.
+Print Assumptions C01_one_pass_hypothesis_decidable.
+
+(* (13) the slack cannot be lowered: a 2-port kernel meeting every hypothesis of (12) whose pass returns Ok with counter 0
+        and whose first row is NOT feasible with any slack eps < 0.0099 per (micro-op, port) -- in particular not 1/200. *)
+Theorem C01_slack_below_granularity_refuted :
+  exists ports k k', all_start_ok ports k /\ balance QNum ports k = Ok (k', 0%nat) /\
+    forall eps, 0 <= eps -> eps < 99 # 10000 ->
+      ~ Feasible (List.length ports) eps (uopsQ ports (nth 0 k' dins)) (qnth (i_pp (nth 0 k' dins))).
+Proof. exact slack_below_granularity_refuted. Qed.
+Print Assumptions C01_slack_below_granularity_refuted.
+
+Theorem C01_slack_200_refuted :
+  exists ports k k', all_start_ok ports k /\ balance QNum ports k = Ok (k', 0%nat) /\
+    ~ Feasible (List.length ports) (1 # 200) (uopsQ ports (nth 0 k' dins)) (qnth (i_pp (nth 0 k' dins))).
+Proof. exact slack_200_refuted. Qed.
+Print Assumptions C01_slack_200_refuted.
+
+(* (14) the share condition of instr_okb is necessary: with "every multi-port share > 1/200" instead of "> m/200" a 3-port
+        kernel passes with counter 0, leaves -1/500 on a port and loses 1/100 of the row total (no slack makes it feasible). *)
+Theorem C01_share_hypothesis_refuted :
+  exists ports k k',
+    (forall ins, In ins k -> start_ok_weak ports ins) /\ balance QNum ports k = Ok (k', 0%nat) /\
+    i_pp (nth 0 k' dins) = [1171 # 5000; - (1 # 500); 0] /\
+    (forall eps, ~ Feasible (List.length ports) eps (uopsQ ports (nth 0 k' dins)) (qnth (i_pp (nth 0 k' dins)))).
+Proof. exact share_hypothesis_refuted. Qed.
+Print Assumptions C01_share_hypothesis_refuted.
+
+(* (15) the repair of rule 1 is necessary: with the OLD `== 0.0` branch (rule1_old, a verbatim copy; balance_uops_old = the
+        model's per-instruction loop over it) a 4-port instruction meeting instr_okb in a kernel meeting all_start_ok returns Ok
+        after two exact zeros with a row that is not feasible with any slack below 1/20; and on the bit-exact binary64
+        model the old rule reproduces the input that failed on the implementation in ONE pass
+        ([0.08 on A|B|C|D; 0.05 on C]: port C left with 0.03 < 0.05). *)
+Theorem C01_old_rule1_exact_zero_refuted :
+  exists ports k idx us pp pp' e,
+    instr_okb ports us = true /\ avg_pressure_list QNum ports us = Ok pp /\
+    all_start_ok ports k /\ i_uops (nth idx k dins) = UList us /\
+    balance_uops_old QNum ports k idx pp us 0 = Ok (pp', e) /\ e = 2%nat /\
+    forall eps, 0 <= eps -> eps < 1 # 20 -> ~ Feasible (List.length ports) eps (map (toU ports) us) (qnth pp').
+Proof. exact old_rule1_exact_zero_refuted. Qed.
+Print Assumptions C01_old_rule1_exact_zero_refuted.
+
+Theorem C01_old_rule1_exact_zero_binary64_refuted :
+  exists pp pp' e,
+    avg_pressure_list FNum fz_ports fz_uops = Ok pp /\
+    balance_uops_old FNum fz_ports fz_kernel 0 pp fz_uops 0 = Ok (pp', e) /\ e = 1%nat /\
+    f_list_biteq pp' [0; 0x1.47ae147ae147bp-5; 0x1.eb851eb851eb8p-6; 0x1.eb851eb851eb9p-5]%float = true /\
+    PrimFloat.ltb (nth 2 pp' 0%float) 0x1.999999999999ap-5%float = true.
+Proof. exact old_rule1_exact_zero_binary64_refuted. Qed.
+Print Assumptions C01_old_rule1_exact_zero_binary64_refuted.
+
+(* non-vacuity of (10)-(12): 3 ports, instruction 0 = [1 on 0|1; 1/2 on 1|2; 1/4 on 2], instruction 1 = 3/10 on port 0; every
+   hypothesis holds and the pass changes row 0 from [1/2; 3/4; 1/2] to [12/25; 63/100; 16/25]; and a run that meets two
+   exact zeros (counter 2) under the repaired rule *)
+Example C01_multi_uop_nonvacuous :
+  instr_okb exm_ports exm_uops = true /\
+  avg_pressure_list QNum exm_ports exm_uops = Ok [1 # 2; 3 # 4; 1 # 2] /\
+  balance_uops QNum exm_ports exm_kernel 0 [1 # 2; 3 # 4; 1 # 2] exm_uops 0 = Ok ([12 # 25; 63 # 100; 16 # 25], 0%nat).
+Proof. exact balance_instr_nonvacuous. Qed.
+
+Example C01_one_pass_nonvacuous :
+  all_start_ok exm_ports exm_kernel /\
+  exists k', balance QNum exm_ports exm_kernel = Ok (k', 0%nat) /\
+             i_pp (nth 0 k' dins) = [12 # 25; 63 # 100; 16 # 25] /\ i_pp (nth 0 exm_kernel dins) = [1 # 2; 3 # 4; 1 # 2].
+Proof. exact balance_pass_nonvacuous. Qed.
+
+Example C01_one_pass_exact_zero_nonvacuous :
+  all_start_ok ez_ports ez_kernel /\
+  exists k', balance QNum ez_ports ez_kernel = Ok (k', 2%nat) /\ i_pp (nth 0 k' dins) = [0; 2 # 5; 1 # 20; 0].
+Proof. exact repaired_rule1_on_exact_zero_witness. Qed.
+
+(* (16) Hall's condition of (11)/(12) with the sharper slack of Proofs/HallSharp.v: 1/100 per PAIR (micro-op not confined to S,
+        port of S that this micro-op may use) -- a micro-op that cannot use any port of S costs nothing. *)
+From OV Require Import Proofs.HallSharp Proofs.BalancePassSharp.
+
+Theorem C01_multi_uop_instruction_hall_sharp : forall ports k idx us pp ex pp' e S,
+  instr_okb ports us = true ->
+  avg_pressure_list QNum ports us = Ok pp ->
+  balance_uops QNum ports k idx pp us ex = Ok (pp', e) ->
+  confined_cycles S (map (toU ports) us) - (1 # 100) * slack_pairs (List.length ports) S (map (toU ports) us)
+  <= load (List.length ports) S (qnth pp').
+Proof. exact balance_instr_hall_sharp. Qed.
+Print Assumptions C01_multi_uop_instruction_hall_sharp.
+
+Theorem C01_one_pass_hall_sharp : forall ports (k k' : list (instr (T:=Q))) e j S,
+  all_start_ok ports k -> balance QNum ports k = Ok (k', e) -> (j < List.length k)%nat ->
+  confined_cycles S (uopsQ ports (nth j k dins)) - (1 # 100) * slack_pairs (List.length ports) S (uopsQ ports (nth j k dins))
+  <= load (List.length ports) S (qnth (i_pp (nth j k' dins))).
+Proof. exact balance_pass_hall_sharp. Qed.
+Print Assumptions C01_one_pass_hall_sharp.
+
+(* (14') the same kernel on the bit-exact binary64 model (one pass): row [0.2342000000000001; -0.002; 0.0] -- negative
+         pressure and 0.002 cycles lost; the implementation returns exactly these doubles (finding once:share-below-granularity) *)
+From OV Require Import Proofs.BalanceRefute64.
+Theorem C01_share_hypothesis_binary64_refuted :
+  exists k' row, balance FNum sh64_ports sh64_kernel = Ok (k', 0%nat) /\
+    nth_error k' 0 = Some row /\
+    f_list_biteq (i_pp row) [0x1.dfa43fe5c91d5p-3; -0x1.0624dd2f1a9fcp-9; 0]%float = true /\
+    PrimFloat.ltb (nth 1 (i_pp row) 0%float) 0%float = true.
+Proof. exact share_hypothesis_binary64_refuted. Qed.
+Print Assumptions C01_share_hypothesis_binary64_refuted.
